@@ -5,7 +5,9 @@ import Generated.C20MapRanges
 import Generated.C20PkgState
 import Generated.C20Resets
 import Generated.C20Sorts
+import Generated.C20Stacks
 import Model.SortKeys
+import Model.Stack
 import Drivers.Common
 /-! `vm_c20`: line protocol over `Model.OMap` / `Spec.OMap`.
 
@@ -16,6 +18,8 @@ import Drivers.Common
                                  hand-written tables do not put in order (what makes the `decide` obligations
                                  fail), `-` if none
   probes                       → the names of the clean channels the probe table relies on
+  obstack <TAB> <fn> <fn> …    the regenerated effects of the named Go functions on core.outputBufferStack.buffers,
+                               applied in order from the floor → ob_get_level() after each, joined by ","
   sorts                        → one entry per regenerated sort over a map-ordered slice:
                                  <file>|<fn>|<whole|argued|known|TYING>|<comparator text>  joined by " ; "
   ksort <TAB> asc|desc <TAB> <hex> <hex> …   keys as hex bytes, in collection order → the keys in the order
@@ -107,12 +111,29 @@ def showBad : String :=
   let nf := (C20Sites.sortSitesWithoutFact Generated.C20MapRanges.sites Generated.C20Sorts.sorts).map
     (fun s => s!"sort not found {s.file} {s.fn} range {s.expr}")
   let ss := Generated.C20Sorts.shape.map (fun s => s!"shape {s}")
-  let all := bs ++ bc ++ sh ++ br ++ up ++ en ++ ts ++ nf ++ ss
+  let st := (Model.Stack.unsafeEffects Generated.C20Stacks.containers).map
+    (fun u => s!"process-wide slice {u.1} can be taken below its floor by {u.2.1} {u.2.2}")
+  let sts := Generated.C20Stacks.shape.map (fun s => s!"shape {s}")
+  let all := bs ++ bc ++ sh ++ br ++ up ++ en ++ ts ++ nf ++ ss ++ st ++ sts
   if all.isEmpty then "-" else " ; ".intercalate all
+
+def obContainer : Option Model.Stack.Container :=
+  Generated.C20Stacks.containers.find? (fun c => c.ty == "outputBufferStack" && c.field == "buffers")
+
+def obLevels (fns : List String) : String :=
+  match obContainer with
+  | none => "no-container"
+  | some c =>
+    let step (n : Nat) (fn : String) : Nat := (c.effects.filter (·.fn == fn)).foldl (fun n e => e.op.step n) n
+    let r := fns.foldl (fun (acc : Nat × List String) fn =>
+      let n' := step acc.1 fn
+      (n', acc.2 ++ [toString (Model.Stack.level n')])) (c.floor, [])
+    ",".intercalate r.2
 
 def handle (line : String) : String :=
   match line.splitOn "\t" with
   | ["bad"] => showBad
+  | ["obstack", fns] => obLevels (fns.splitOn " ")
   | ["probes"] => " ".intercalate (C20Sites.probeChannels C20Sites.probes)
   | ["sorts"] => showSorts
   | ["ksort", dir, keys] =>
